@@ -52,6 +52,10 @@ type world struct {
 	out  *hx.Out
 	rng  *rand.Rand
 	mode string // "c13" | "c07"
+	confN    int
+	govReady bool // gov parameters for oracle-list proposals written (govblock_test.go)
+	// oracles the oracle-list proposal executed by the gov end-blocker of the NEXT block takes offline (not a slash)
+	inBlockRemoved map[string]bool
 	chain string // the bridged chain this world drives (all eight crosschain modules share the keeper code)
 	tron  bool   // tron-style external addresses, checkpoints and signatures
 	env   bool   // every op is followed by a real FinalizeBlock; batches come from the real pool; external events are voted in
@@ -811,7 +815,18 @@ func (w *world) opConf(kd string, n uint64, e, b int, good bool) {
 		}
 		msg = &types.MsgBridgeCallConfirm{Nonce: n, BridgerAddress: w.bridgers[b].String(), ExternalAddress: w.extAddr[e], Signature: w.sign(e, cp, good), ChainName: w.chain}
 	}
-	res := kind(w.tx(func(ctx sdk.Context) error { return w.k.ConfirmHandler(ctx, msg) }), errTable, "other")
+	// every second confirm goes through the application's message router (the registered crosschain Msg service picks the
+	// chain's keeper by msg.ChainName and calls its msg server), the others through the keeper entry point
+	w.confN++
+	via := "keeper"
+	var res string
+	if hd := w.s.App.MsgServiceRouter().Handler(msg.(sdk.Msg)); w.confN%2 == 0 && hd != nil {
+		via = "router"
+		res = kind(w.tx(func(ctx sdk.Context) error { _, err := hd(ctx, msg.(sdk.Msg)); return err }), errTable, "other")
+	} else {
+		res = kind(w.tx(func(ctx sdk.Context) error { return w.k.ConfirmHandler(ctx, msg) }), errTable, "other")
+	}
+	w.out.Count("conf-via:" + via)
 	w.out.Count("conf-" + kd + ":" + res)
 	w.out.Nontrivial("conf-" + kd + ":" + res)
 	g := 0
@@ -956,6 +971,12 @@ func (w *world) opBlock(dt int64) {
 	for id, o := range sn.online {
 		now, found := w.k.GetOracle(w.ctx(), o.GetOracle())
 		if !found || now.Online {
+			continue
+		}
+		if w.inBlockRemoved[o.OracleAddress] {
+			if now.SlashTimes != o.SlashTimes {
+				w.violate(fmt.Sprintf("penalty without a missed signing: oracle %d was removed by the governance proposal executed in this block and its slash_times moved from %d to %d", id, o.SlashTimes, now.SlashTimes))
+			}
 			continue
 		}
 		w.out.Nontrivial("block:slashed")
@@ -1296,7 +1317,11 @@ func (w *world) sequence(length int) {
 				k := rng.Intn(n)
 				list = append(list[:k], list[k+1:]...)
 			}
-			w.opGov(list)
+			if rng.Intn(3) == 0 {
+				w.opGovInBlock(list) // as the message of a passed proposal, inside the gov end-blocker of a real block
+			} else {
+				w.opGov(list)
+			}
 		case r < 53:
 			w.opNudge()
 		case r < 58:
@@ -1461,8 +1486,13 @@ func (w *world) lifecycle(variant int) {
 			}
 		}
 	case 6: // unbond transactions around the maturity of the unbonding entry: completion-1, =completion (inside the block,
-		// before the staking end-blocker pays out), the block after
-		w.opGov(all[1:])
+		// before the staking end-blocker pays out), the block after; every second time the removal is the message of a passed
+		// proposal executed by the gov end-blocker
+		if w.rng.Intn(2) == 0 {
+			w.opGovInBlock(all[1:])
+		} else {
+			w.opGov(all[1:])
+		}
 		w.opBlock(5)
 		w.confirmRound(dil, 1)
 		w.opUnbondNear(0, -1)
@@ -1588,6 +1618,9 @@ func (w *world) lifecycle(variant int) {
 			w.opBlock(5)
 			w.opWithdraw(0)
 		} else {
+			// the removed, matured oracle asks for its rewards BEFORE it unbonds: refused (offline) — were it served, the matured
+			// stake sitting at the delegate address, penalty included, would be swept out and the unbond could never pay
+			w.opWithdraw(0)
 			w.opUnbond(0)
 		}
 		w.opBlock(5)
